@@ -88,7 +88,7 @@ int main(int argc, char** argv) {
   g_trace = std::getenv("NF_TRACE") ? (size_t)std::atol(std::getenv("NF_TRACE")) : 0;
   g_after_entry = arm;
   g_before_output = disarm;
-  warm_up();
+  warm_up(timeout_ms, rss_lim);
   std::string line;
   while (std::getline(std::cin, line)) {
     Toks hd(line);
@@ -98,6 +98,7 @@ int main(int argc, char** argv) {
     Verdict v = supervise(op, timeout_ms, rss_lim, [&](int out_fd) -> int {
       auto say = [&](const std::string& m) { ssize_t w = write(out_fd, m.data(), m.size()); (void)w; };
       say("#counting\n");
+      cpu_budget(timeout_ms);            // the limit applies to every single run, not to the whole enumeration of k
       int rc0 = run_nf(op, 0, false);
       size_t N = g_allocs;
       if (rc0 != 0) { say("N=" + std::to_string(N) + " tried=0 bad_alloc=0 completed=0 baseline-exception " + std::string(g_out)); return 0; }
@@ -115,6 +116,7 @@ int main(int argc, char** argv) {
         if ((sticky == 0 && s == 1) || (sticky == 1 && s == 0)) continue;
         for (size_t k : ks) {
           say("#k=" + std::to_string(k) + " sticky=" + std::to_string(s) + "\n");
+          cpu_budget(timeout_ms);
           int rc = run_nf(op, k, s == 1);
           ++tried;
           if (rc == 1) ++ba;
